@@ -11,7 +11,7 @@ from ..common import Result
 ID = "C10"
 LEVEL = "exploration"
 WORLDS = [(1, "plain")]
-BUDGET = {"quick": dict(cases=600, enum_len=6), "thorough": dict(cases=15000, enum_len=9)}
+BUDGET = {"quick": dict(cases=1200, enum_len=6), "thorough": dict(cases=45000, enum_len=9)}
 MIN_NONTRIVIAL = {"quick": 3000, "thorough": 30000}
 EXHAUSTIVE = {"quick": False, "thorough": False}
 BLOB = (300, 1000)
